@@ -33,18 +33,18 @@ man = {
     'setup_cmd': './setup.sh',
     'hooks': {
         'guard': 'cargo feature `verif_hooks` of embedded-graphics (off by default)',
-        'enable': 'harness/Cargo.toml enables feature verif_hooks on the path dependency /repo when a check needs it (C18 only); all other checks use the public API',
+        'enable': 'harness/Cargo.toml.in always enables feature verif_hooks on the path dependency (it only adds read-only accessors in src/primitives/verif_hooks.rs + one in plane_sector.rs); used by the C18/C05 sector suites (plane_sector_parts) and the C07/C02/C08 thick-stroke suites (line_extents, linear_equation, line_intersection, line_join, thick_segment); every other suite uses the public API',
         'baseline_off_cmd': 'cd /repo && cargo test --workspace --no-fail-fast --offline',
         'source_commits': json.load(open(os.path.join(V, 'props', 'hook_commits.json'))),
         'add_only': True,
     },
     'engines': [
         {'name': 'coq-proof+correspondence', 'path': 'check', 'serves_properties': [c['property_id'] for c in checks],
-         'kind_free_text': 'Coq 8.16 theorems over executable Gallina models (coq/), models extracted to OCaml (ocaml/) and compared with the Rust implementation (harness/) on generated cases; direct property search on the implementation for replays; generated tables (translate/) regenerated from /repo on every run'},
+         'kind_free_text': 'Coq 8.16 theorems over executable Gallina models (coq/); tie to the code by (1) translators that regenerate tables, control-flow and arithmetic skeletons and - expression level, translate/r2c - Gallina definitions of source functions from /repo on every run, with theorems proving them equal to the models, and (2) a correspondence check: models extracted to OCaml (ocaml/) and compared with the Rust implementation (harness/) on generated cases; direct property search on the implementation supplies the replays'},
     ],
     'checks': checks,
     'not_applicable': na,
-    'notes': 'Every check rebuilds harness and generated Coq tables from /repo working tree. known_findings.txt lists fixed/recorded defects. See DESIGN.md.',
+    'notes': 'Every check regenerates the Coq tables and source-tie definitions (translate/) and rebuilds the harness from the /repo working tree (EG_REPO selects another tree). known_findings.txt lists 23 fixed and 4 recorded defects (5 finding lines). seeded/: 80 independent breaking changes, all reported. See DESIGN.md (status table at the top, sections 10-12 as built).',
 }
 json.dump(man, open(os.path.join(V, 'MANIFEST.json'), 'w'), indent=1)
 print('checks:', [c['property_id'] for c in checks], 'not_applicable:', len(na))
